@@ -55,7 +55,9 @@ extern int mpt_path_add(MPT_STRUCT(path) *path, int add)
 		/* set leading/trailing/next size parameter */
 		if (len) {
 			data[len - 1] = add;
-		} else {
+		}
+		/* new element is first of (remaining) path */
+		if (!path->len) {
 			path->first = add;
 		}
 		/* set next part */
